@@ -82,7 +82,13 @@ EXPLANATION = (
     "outcomes are classified and the two places where a failure is NOT 'EOFError + closed' are exhibited "
     "(poll_failure_is_not_eof_closed, close_failure_is_not_eof_closed). The would-block clause is proved for sockets "
     "and refuted by the letter for pipes (C05_pipe_wouldblock_counterexample, C05_pipe_partial). NOT proved: a "
-    "whole-run invariant for arbitrary duplex call sequences (the per-call lemmas are what is proved).")
+    "whole-run invariant for arbitrary duplex call sequences (the per-call lemmas are what is proved). Remark "
+    "(lemma level): a channel's frames depend only on that channel's packets - `frame`, `sendWrites`, `chanSend`, "
+    "`recvPacket` are functions of the channel's own arguments and stream state, so two channels share no state in the "
+    "model BY CONSTRUCTION; that the code has none either (no class-level or module-level scratch state in "
+    "Channel/SocketStream/PipeStream) is what the two-channel correspondence checks: channel A's send/recv is preempted "
+    "at every bytecode instruction inside Channel.send/recv and the stream's read/write/close by a complete call on an "
+    "independent channel B, and each channel must behave exactly as the model of that channel alone.")
 
 
 def mods():
@@ -255,6 +261,150 @@ def run_duplex(case, packets_out):
         return dict(results=out, closed=tf(stream.closed), rleft=tr.recv_script.remaining(),
                     sleft=tr.send_script.remaining(), pleft=tr.poll_script.remaining(), rest=tr.wire_left(),
                     sent=bytes(tr.sent))
+
+
+# ------------------------------------------------------------------------- two channels, preemption at every instruction
+import sys as _sys
+
+
+def run_stepped(action, codes, on_step):
+    """run action(), calling on_step() before every bytecode instruction executed inside one of the code objects
+    `codes` (the points at which the interpreter may switch to another thread); instructions executed by on_step
+    itself are not points"""
+    busy = [False]
+    if hasattr(_sys, "monitoring"):
+        mon = _sys.monitoring
+        tool = None
+        for cand in (mon.DEBUGGER_ID, mon.PROFILER_ID, mon.OPTIMIZER_ID, 3, 4):
+            try:
+                mon.use_tool_id(cand, "c05-two-channels")
+                tool = cand
+                break
+            except ValueError:
+                continue
+        if tool is None:
+            raise RuntimeError("no free sys.monitoring tool id")
+
+        def on_instruction(code, offset):
+            if busy[0]:
+                return
+            busy[0] = True
+            try:
+                on_step()
+            finally:
+                busy[0] = False
+        mon.register_callback(tool, mon.events.INSTRUCTION, on_instruction)
+        for c in codes:
+            mon.set_local_events(tool, c, mon.events.INSTRUCTION)
+        try:
+            return action()
+        finally:
+            for c in codes:
+                mon.set_local_events(tool, c, 0)
+            mon.register_callback(tool, mon.events.INSTRUCTION, None)
+            mon.free_tool_id(tool)
+    codeset = set(codes)
+
+    def local(frame, event, arg):
+        if event == "opcode" and not busy[0]:
+            busy[0] = True
+            try:
+                on_step()
+            finally:
+                busy[0] = False
+        return local
+
+    def tracer(frame, event, arg):
+        if event == "call" and frame.f_code in codeset and not busy[0]:
+            frame.f_trace_opcodes = True
+            return local
+        return None
+    old = _sys.gettrace()
+    _sys.settrace(tracer)
+    try:
+        return action()
+    finally:
+        _sys.settrace(old)
+
+
+def traced_codes(kind, mx):
+    channel, S = mods()
+    cls = stream_class(kind, mx)
+    base = S.SocketStream if kind == "sock" else S.PipeStream
+    return [channel.Channel.send.__code__, channel.Channel.recv.__code__, base.read.__code__, base.write.__code__,
+            base.close.__code__, cls.write.__code__]
+
+
+def run_two_channels(case, k):
+    """Channel A performs case['a_op'] ('send' | 'recv'); at the k-th instruction inside Channel.send/recv or the
+    stream's read/write/close of that call, 'another thread' performs a complete case['b_op'] on the independent
+    channel B.  k = None: no preemption.  Returns (fired, observation of A, observation of B)."""
+    channel, _S = mods()
+    kind, mx = case["kind"], case["max"]
+    pa, pb = make_packet(case["pa"]), make_packet(case["pb"])
+    wa = run_send("sock", case["ca"], mx, [pa], ["a%d*9" % BIG])["sent"]
+    wb = run_send("sock", case["cb"], mx, [pb], ["a%d*9" % BIG])["sent"]
+    with open_stream(kind, mx, wire=wa, rscript=["c%d*%d" % (BIG, len(wa) + 3)], sscript=["a%d*%d" % (BIG, len(wa) + 3)]) as (sa, ta):
+        with open_stream(kind, mx, wire=wb, rscript=["c%d*%d" % (BIG, len(wb) + 3)], sscript=["a%d*%d" % (BIG, len(wb) + 3)]) as (sb, tb):
+            # (the second patch is nested: both descriptors must stay registered; re-register the first pair)
+            cha, chb = channel.Channel(sa, compress=case["ca"]), channel.Channel(sb, compress=case["cb"])
+            obs = {}
+
+            def do(name, chan, op, pkt):
+                try:
+                    obs[name] = "sent" if op == "send" and chan.send(pkt) is None else "ok:x" + chan.recv().hex() if op == "recv" else "?"
+                except ScriptExhausted:
+                    obs[name] = "starved"
+                except Exception as ex:  # noqa
+                    obs[name] = xname(ex)
+            state = dict(n=0, fired=False)
+
+            def on_step():
+                if state["n"] == k and not state["fired"]:
+                    state["fired"] = True
+                    do("B", chb, case["b_op"], pb)
+                state["n"] += 1
+            if k is None:
+                do("A", cha, case["a_op"], pa)
+                do("B", chb, case["b_op"], pb)
+                state["fired"] = True
+            else:
+                run_stepped(lambda: do("A", cha, case["a_op"], pa), traced_codes(kind, mx), on_step)
+            return state["fired"], (obs.get("A"), bytes(ta.sent), tf(sa.closed)), (obs.get("B"), bytes(tb.sent), tf(sb.closed))
+
+
+def two_channel_points(case, limit=5000):
+    """every preemption point of the case: list of (k, obsA, obsB)"""
+    out = []
+    k = 0
+    while k < limit:
+        fired, oa, ob = run_two_channels(case, k)
+        if not fired:
+            break
+        out.append((k, oa, ob))
+        k += 1
+    return out
+
+
+def two_channel_property(case, points=None):
+    """per channel: what the transport accepted decodes to exactly that channel's packet / recv returned exactly
+    that channel's packet, wherever the other channel's call was interleaved"""
+    pa, pb = make_packet(case["pa"]), make_packet(case["pb"])
+    for k, oa, ob in (points if points is not None else two_channel_points(case)):
+        for name, op, pkt, (res, sent, closed) in (("A", case["a_op"], pa, oa), ("B", case["b_op"], pb, ob)):
+            if op == "send":
+                if res != "sent":
+                    return "channel %s: send raised %s when the other channel's %s ran at instruction #%d of its call" % (
+                        name, res, case["b_op"] if name == "A" else case["a_op"], k)
+                back = run_recv("sock", False, case["max"], sent, ["c%d*%d" % (BIG, len(sent) + 3)], 1)
+                if back["got"] != [pkt]:
+                    return ("channel %s sent a %d-byte packet but its receiver gets %s (%s): the other channel's call ran at "
+                            "instruction #%d of channel A's %s" % (name, len(pkt), [len(g) for g in back["got"]], back["end"],
+                                                                   k, case["a_op"]))
+            elif res != "ok:x" + pkt.hex():
+                return "channel %s: recv gave %s instead of its own %d-byte packet (other channel interleaved at #%d)" % (
+                    name, (res or "")[:40], len(pkt), k)
+    return None
 
 
 # ----------------------------------------------------------------------------------------------- packets
@@ -584,6 +734,26 @@ def gen_kernel_cases(r, ctx):
         yield case
 
 
+def gen_two_channel_cases(r, ctx):
+    """two independent channels over their own transports; A's call is preempted at every instruction by a complete
+    call on B (a packet of different length / compression)"""
+    channel, _S = mods()
+    t = channel.Channel.COMPRESSION_THRESHOLD
+    pairs = [([10, "r", 1], [20, "r", 2], False, False, None), ([0, "r", 3], [t + 1, "c", 4], True, True, None),
+             ([t + 1, "c", 5], [7, "r", 6], True, False, None), ([12, "r", 7], [3, "r", 8], False, False, 16),
+             ([3, "r", 9], [12, "r", 10], False, False, 16), ([300, "c", 11], [t + 1, "r", 12], False, True, None)]
+    extra = ctx.budget(0, 10)
+    for i in range(extra):
+        pairs.append(([r.choice([0, 1, 9, 11, 30, t + 1]), r.choice("cr"), 100 + i], [r.choice([0, 2, 10, 12, 40, t + 1]), r.choice("cr"), 200 + i],
+                      r.chance(1, 2), r.chance(1, 2), r.choice([None, 16, 5])))
+    n = 0
+    for pa, pb, ca, cb, mx in pairs:
+        for a_op, b_op in (("send", "send"), ("recv", "recv"), ("send", "recv"), ("recv", "send")):
+            n += 1
+            yield dict(op="twochan", group="S9-two-channels:%s/%s" % (a_op, b_op), kind=("sock", "pipe")[(n + n // 4) % 2], max=mx,
+                       pa=pa, pb=pb, ca=ca, cb=cb, a_op=a_op, b_op=b_op)
+
+
 # ----------------------------------------------------------------------------------------------- running one case
 def scripts_for(case, packets):
     """materialise the family scripts of a case (deterministic per case)"""
@@ -769,6 +939,34 @@ def feed_case(case, batch, corr, seen_writes):
         if msg:
             corr.disagreements.append(dict(op="duplex-oracle", case=compact(case), impl=msg, model="(direct oracle)"))
         return dict(case=compact(dict(case, wire=case["wire"][:120])), outcome=want[:200])
+    if op == "twochan":
+        points = two_channel_points(case)
+        _f, base_a, base_b = run_two_channels(case, None)
+        msg = two_channel_property(case, points)
+        if msg:
+            corr.disagreements.append(dict(op="twochan-oracle", case=compact(case), impl=msg, model="(direct oracle)"))
+        # the model has no state shared between channels: each channel alone is what it predicts, at every point
+        for name, op_, spec, comp, idx in (("A", case["a_op"], case["pa"], case["ca"], 1), ("B", case["b_op"], case["pb"], case["cb"], 2)):
+            if op_ != "send":
+                continue
+            pkt = make_packet(spec)
+            seen = set((pt[idx][0], pt[idx][1], pt[idx][2]) for pt in points) | set([(base_a, base_b)[idx - 1]])
+            mx = max_of(case["kind"], case["max"])
+
+            def post(got, seen=seen, name=name):
+                toks = got.split(" ")
+                model = (toks[0:3] + toks[4:5]) if len(toks) == 5 else toks
+                bad = [x for x in seen if ["1", "done", x[2], "x" + x[1].hex()] != model or x[0] != "sent"]
+                if bad:
+                    return "channel %s alone should give [%s]; with the other channel interleaved: %s" % (
+                        name, got[:80], ["%s %s x%s" % (b[0], b[2], b[1].hex()[:60]) for b in bad[:3]])
+                return None
+            batch.add("wire send %s %d a%d*9 %s" % (tf(comp), mx, BIG, pkt_token(pkt, comp)), "", case, "twochan-send", post=post)
+        corr.count("group:" + case["group"])
+        corr.count("two-channels:preemption-points", len(points))
+        corr.signatures.add(("twochan", case["group"], case["kind"], case["max"], size_class(len(make_packet(case["pa"]))),
+                             size_class(len(make_packet(case["pb"]))), case["ca"], case["cb"], len(points)))
+        return dict(case=compact(case), preemption_points=len(points), outcome="A %s / B %s at every point" % (base_a[0], base_b[0]))
     if op == "kernel":
         packets, tail, res = run_kernel(case)
         msg = kernel_property(case, packets, res)
@@ -916,7 +1114,12 @@ def correspondence(ctx):
         "incoming.close / outgoing.close); compared: every call's result or exception class, final closed, events left "
         "of all three scripts, wire left, bytes accepted. S8 (kernel): transfers over a real socketpair / real os.pipe "
         "pairs through a size-capping, logging shim (small buffers, non-blocking reader, cut mid-frame, ECONNRESET, "
-        "reader dying under the writer); the recorded traces are replayed through the model. Non-trivial = moves "
+        "reader dying under the writer); the recorded traces are replayed through the model. S9 (two channels): two "
+        "independent real channels over their own scripted transports; channel A's send (or recv) is single-stepped and at "
+        "EVERY bytecode instruction inside Channel.send/recv and the stream's read/write/close (sys.monitoring INSTRUCTION "
+        "events: every point at which the interpreter can switch threads) a complete send or recv of a packet of "
+        "different length/compression runs on channel B, one point per run; at every point both channels must give what the "
+        "model gives for each channel alone (bytes accepted, closed) and each receiver exactly its own packet. Non-trivial = moves "
         "at least one packet or one read/write/poll call; distinct = distinct (group, "
         "fault or script family, stream kinds, sender compression, packet size classes, chunk size, both outcomes, "
         "number of packets received) resp. (call sequence, result sequence, closed) for S5-S7.")
@@ -927,7 +1130,8 @@ def correspondence(ctx):
     try:
         gens = [gen_transfer_cases(r.fork("xfer"), ctx), gen_fault_cases(r.fork("fault"), ctx),
                 gen_stream_cases(r.fork("stream"), ctx), gen_rawwire_cases(r.fork("raw"), ctx),
-                gen_duplex_cases(r.fork("duplex"), ctx), gen_kernel_cases(r.fork("kernel"), ctx)]
+                gen_duplex_cases(r.fork("duplex"), ctx), gen_kernel_cases(r.fork("kernel"), ctx),
+                gen_two_channel_cases(r.fork("twochan"), ctx)]
         for g in gens:
             for case in g:
                 n += 1
@@ -1064,6 +1268,8 @@ def oracle_case(case):
     if op == "kernel":
         packets, _tail, res = run_kernel(case)
         return kernel_property(case, packets, res)
+    if op == "twochan":
+        return two_channel_property(case)
     return None
 
 
@@ -1122,6 +1328,7 @@ def oracle_search(ctx, corr, broken):
                 yield c
         n = 0
         for g in (gen_transfer_cases(r.fork("xfer"), ctx), gen_fault_cases(r.fork("fault"), ctx),
+                  gen_two_channel_cases(r.fork("twochan"), ctx),
                   gen_stream_cases(r.fork("stream"), ctx), gen_duplex_cases(r.fork("duplex"), ctx),
                   gen_kernel_cases(r.fork("kernel"), ctx)):
             for case in g:
@@ -1164,7 +1371,7 @@ def oracle_search(ctx, corr, broken):
         if len(Script(ss).text()) < 4000 and len(Script(rs).text()) < 4000:
             case = dict(case, sscript=ss, rscript=rs)
     out = compact(case)
-    out["kind"] = "fault" if case.get("expect") == "safe" or case.get("op") in ("reads", "swrites", "duplex", "kernel") else "input"
+    out["kind"] = "fault" if case.get("expect") == "safe" or case.get("op") in ("reads", "swrites", "duplex", "kernel") else "schedule" if case.get("op") == "twochan" else "input"
     return out, msg, signature_of(msg)
 
 
